@@ -277,6 +277,19 @@ func (g *Gen) specElemField(st *State, a Val, fname, src string) Val {
 				return v
 			}
 		}
+		// promoted field of a struct embedded by value in the element (staged[j].outFile with
+		// stagedCertificateImport embedding certificateImport): descend through the embedded struct
+		if emb := embeddedWith(stt, fname); emb >= 0 {
+			ef := stt.Field(emb)
+			if isStructType(ef.Type()) {
+				key := typeName(a.Ty)
+				if a.Obj != "" {
+					key = a.Obj
+				}
+				inner := Val{Kind: "elemstruct", Ref: a.Ref, Idx: a.Idx, Ty: ef.Type(), Heap: a.Heap, Obj: key + "." + ef.Name()}
+				return g.specElemField(st, inner, fname, src)
+			}
+		}
 		panic(specErr{"spec: no field " + fname + " in element type " + a.Ty.String()})
 	}
 	if a.Kind == "struct" && a.Ty != nil {
